@@ -9,6 +9,16 @@
    ConnC  : a real udp/client.Conn over the in-memory session; messages are injected one at a time,
             handlers issue nested blocking requests.  [agrees] compares with the model run under the
             deterministic scheduler [run_canon].
+   Burst  : a real tcp/client.Conn (layer 1, scripted stream) or udp/client.Conn (layer 2, one goroutine calling
+            Process): k messages 1..k are handed to the connection's socket reader back to back (for tcp in one
+            write, in writes of j frames or of j bytes), i.e. faster than the queue takes them; handlers return at
+            once, block on a harness channel until the reader is parked on the full queue ([held]), or issue a
+            nested request whose response is a later message of the same burst.  The hand-off from the socket
+            reader into the queue is the producer action [APush] of the model: ONE producer per connection, pushing
+            in arrival order (Model.v, "single producer").  A handler blocked on a harness channel is not a
+            handler program: it is a schedule in which that loop does not move for a while, so [agrees] compares
+            with the same deterministic model run as for ConnC (for single-request programs the log is the same
+            for every schedule: Proofs.run_in_order_complete, all these runs are calm).
    [pclass] evaluates the property (Reader/Spec.v) on the OBSERVED log only. *)
 From Coq Require Import ZArith NArith List Bool.
 From GoCoap Require Import Base.Cases Reader.Model Reader.Spec.
@@ -20,7 +30,12 @@ Inductive case :=
          (tr : list (act * Z * nat))          (* action, scheduling point reached by the actor, loops seen so far *)
          (olog : list (Z * nat)) (onest : list (Z * Z * bool)) (hang : bool)
 | Stat (n : nat) (pr : list (Z * prog)) (msgs : list Z) (olog : list Z) (onest : list (Z * Z * bool)) (complete : bool)
-| ConnC (n : nat) (pr : list (Z * prog)) (msgs : list Z) (olog : list Z) (onest : list (Z * Z * bool)) (hang : bool).
+| ConnC (n : nat) (pr : list (Z * prog)) (msgs : list Z) (olog : list Z) (onest : list (Z * Z * bool)) (hang : bool)
+| Burst (layer : Z) (n : nat) (pr : list (Z * prog)) (k : nat) (held : list Z)
+        (olog : list Z) (onest : list (Z * Z * bool)) (hang : bool).
+
+(* the messages of a burst: 1..k in arrival order *)
+Definition burst_msgs (k : nat) : list Z := map Z.of_nat (seq 1 k).
 
 Definition pc_code (p : pc) : Z :=
   match p with
@@ -99,7 +114,17 @@ Definition observation (c : case) : obs :=
       mkObs msgs olog true true (negb (blocking pr msgs)) onest
   | ConnC n pr msgs olog onest hang =>
       mkObs msgs olog true true (negb (blocking pr msgs)) onest
+  (* the order clause applies when no handler blocked: no nested request and no handler held by the harness *)
+  | Burst layer n pr k held olog onest hang =>
+      let msgs := burst_msgs k in
+      mkObs msgs olog true true (negb (blocking pr msgs) && match held with [] => true | _ => false end) onest
   end.
+
+(* real connections: compare with the model run under the deterministic scheduler *)
+Definition conn_agrees (n : nat) (pr : list (Z * prog)) (msgs olog : list Z) (onest : list (Z * Z * bool)) (hang : bool) : bool :=
+  let cf := mkCfg n true pr in
+  let s := run_canon (200 * (1 + length msgs)) cf (init msgs 0) in
+  negb hang && list_eqb Z.eqb (map fst (log s)) olog && nest_ok s onest && quiescent cf s.
 
 Definition agrees_shape (fx : bool) (c : case) : bool :=
   match c with
@@ -112,10 +137,10 @@ Definition agrees_shape (fx : bool) (c : case) : bool :=
   | Stat n pr msgs olog onest complete =>
       (* predicted for every schedule by C11_exactly_once / C11_in_order (single-replace, non-blocking programs) *)
       complete && holds (observation c)
-  | ConnC n pr msgs olog onest hang =>
-      let cf := mkCfg n true pr in
-      let s := run_canon (200 * (1 + length msgs)) cf (init msgs 0) in
-      negb hang && list_eqb Z.eqb (map fst (log s)) olog && nest_ok s onest && quiescent cf s
+  | ConnC n pr msgs olog onest hang => conn_agrees n pr msgs olog onest hang
+  | Burst layer n pr k held olog onest hang =>
+      ((layer =? 1) || (layer =? 2)) && forallb (fun m => (1 <=? m) && (m <=? Z.of_nat k)) held &&
+      conn_agrees n pr (burst_msgs k) olog onest hang
   end.
 
 (* the correspondence is with the model of the repaired code; [agrees_shape false] (the code before the
